@@ -31,6 +31,9 @@ def registry_ids():
     return out.stdout.split()
 
 SONAR = json.dumps({"issues": []})
+RESULT_FILES = {"sonar.json": SONAR, "hot.json": json.dumps({"hotspots": []}), "dd.json": json.dumps({"results": []}), "empty.sarif": json.dumps({"version": "2.1.0", "runs": []}),
+                "semgrep.sarif": json.dumps({"runs": [{"tool": {"driver": {"name": "Semgrep OSS"}}, "results": []}]}), "codeql.sarif": json.dumps({"runs": [{"tool": {"driver": {"name": "CodeQL"}}, "results": []}]}),
+                "bandit.sarif": json.dumps({"runs": [{"tool": {"driver": {"name": "Bandit"}}, "results": []}]})}
 def plan(tier, seed):
     rnd = random.Random(f"C17:{seed}")
     ids = registry_ids()
@@ -63,8 +66,18 @@ def plan(tier, seed):
         argv = ["{proj}", "--output", "{out}"]
         if inc: argv += ["--codemod-include", ",".join(inc)]
         if exc: argv += ["--codemod-exclude", ",".join(exc)]
-        if sast: argv += ["--sonar-issues-json", "{res}/sonar.json"]
-        jobs.append({"id": f"sel{k}", "include": dedup(inc), "exclude": dedup(exc), "sast": sast, "ids": ids, "files": {"a.py": b64(b"x = 1\n")}, "result_files": {"sonar.json": SONAR},
+        # how the SAST inputs are supplied decides the eligible set: Sonar ISSUE files or SARIF files (of whatever tool, even with no recognised run) => tool-specific codemods;
+        # hotspots-only / DefectDojo-only do not switch the mode
+        mode = None
+        if sast:
+            mode = rnd.choice(("sonar-issues", "sarif-semgrep", "sarif-codeql", "sarif-unrecognised-tool", "sarif-no-runs", "sarif-two-tools", "sonar-issues+hotspots"))
+            argv += {"sonar-issues": ["--sonar-issues-json", "{res}/sonar.json"], "sarif-semgrep": ["--sarif", "{res}/semgrep.sarif"], "sarif-codeql": ["--sarif", "{res}/codeql.sarif"],
+                     "sarif-unrecognised-tool": ["--sarif", "{res}/bandit.sarif"], "sarif-no-runs": ["--sarif", "{res}/empty.sarif"], "sarif-two-tools": ["--sarif", "{res}/semgrep.sarif,{res}/codeql.sarif"],
+                     "sonar-issues+hotspots": ["--sonar-issues-json", "{res}/sonar.json", "--sonar-hotspots-json", "{res}/hot.json"]}[mode]
+        elif rnd.random() < 0.25:
+            mode = rnd.choice(("hotspots-only", "defectdojo-only"))
+            argv += {"hotspots-only": ["--sonar-hotspots-json", "{res}/hot.json"], "defectdojo-only": ["--defectdojo-findings-json", "{res}/dd.json"]}[mode]
+        jobs.append({"id": f"sel{k}", "include": dedup(inc), "exclude": dedup(exc), "sast": sast, "ids": ids, "files": {"a.py": b64(b"x = 1\n")}, "mode": mode, "result_files": RESULT_FILES,
                      "argv": argv, "stub_semgrep": True, "env": {}, "monitors": {"snap": False, "pipe": False, "write": False, "file": False, "dep": False, "ctx": False, "sg": False}})
     return jobs
 
@@ -84,7 +97,7 @@ def judge(job, res):
         # collection (origin) order is hash-seed dependent (C11); compare order within each origin and, for explicit includes, the full order
         return seq
     same_members = sorted(executed) == sorted(ref)
-    witness = {"include": job["include"], "exclude": job["exclude"], "sast": job["sast"], "executed": executed, "reference": ref}
+    witness = {"include": job["include"], "exclude": job["exclude"], "sast": job["sast"], "how_supplied": job.get("mode"), "executed": executed, "reference": ref}
     if executed != reported: v.append(Violation("C17", "report-order-differs-from-execution", "results[] order != executed order", witness))
     if logged and logged != executed: v.append(Violation("C17", "progress-lines-differ", "running-codemod lines != executed", witness))
     if not same_members:
@@ -92,6 +105,7 @@ def judge(job, res):
         if dup: key = "wildcard-duplicates" if job["include"] and any("*" in i for i in job["include"]) else "duplicates"
         elif extra and job["include"]: key = "wildcard-unanchored" if any("*" in i for i in job["include"]) else "include-extra"
         elif extra and set(extra) <= set(DEFAULT_EXCLUDED) and job["exclude"]: key = "exclude-reenables-defaults"
+        elif (extra or missing) and not job["include"] and job.get("mode") and ({e.split(":")[0] == "pixee" for e in extra} == {True} and job["sast"] or {e.split(":")[0] != "pixee" for e in extra} == {True} and not job["sast"]): key = "wrong-eligibility-mode/" + job["mode"]
         elif extra: key = "exclude-misses" if job["exclude"] else "default-extra"
         else: key = "missing-codemods"
         v.append(Violation("C17", key, f"extra={extra[:5]} missing={missing[:5]} dup={dup[:5]}", witness))
